@@ -418,6 +418,33 @@ def build(tier, seed):
               if not (pn == "name_map" and en in ("EFalsy", "EStrEmpty"))]
     combos += [("ESnake", "name_camel"), ("ESnake", "exact"), ("EInt", "value"), ("EStr", "value"), ("EAlias", "value"), ("EPlain", "default")]
     for en, pn in combos:
+        if (en, pn) == ("EUnhash", "exact"):
+            # Enum.__call__ looks the value up in a dict first and falls back to a linear search on TypeError; CrossHair's hash() of a tuple holding a
+            # list does not raise, so under the engine the fallback is never taken (counterexamples do not replay): labelled native enumeration
+            m.nat(f"enum_rt_{en}_{pn}", f"""
+def nat_enum_rt_{en}_{pn}():
+    bad = [{{"mi": str(mi)}} for mi in range(3) if not enum_roundtrip({en!r}, {pn!r}, mi)]
+    return {{"status": "REFUTED" if bad else "CONFIRMED", "cexs": bad[:5], "evaluations": 3, "note": "labelled native enumeration (engine hash model)"}}
+def chk_enum_rt_{en}_{pn}(mi):
+    return enum_roundtrip({en!r}, {pn!r}, mi)
+""", timeout=60, family="enum round trip (labelled enumeration: unhashable member values)", bounds="every member; strict and lax; native")
+            m.nat(f"enum_rej_{en}_{pn}", f"""
+def nat_enum_rej_{en}_{pn}():
+    bad, ev = [], 0
+    for kind in range(9):
+        for tag in range(6):
+            for n in range(3):
+                for c0 in range(9):
+                    for c1 in (range(9) if tag == 4 and n == 2 else (0, 1)):
+                        ev += 1
+                        if not enum_reject_sel({en!r}, {pn!r}, kind, tag, n, c0, c1):
+                            bad.append({{"kind": str(kind), "tag": str(tag), "n": str(n), "c0": str(c0), "c1": str(c1)}})
+    return {{"status": "REFUTED" if bad else "CONFIRMED", "cexs": bad[:5], "evaluations": ev, "note": "labelled native enumeration (engine hash model)"}}
+def chk_enum_rej_{en}_{pn}(kind, tag, n, c0, c1):
+    return enum_reject_sel({en!r}, {pn!r}, kind, tag, n, c0, c1)
+""", timeout=120, family="enum loaders accept exactly member representations (labelled enumeration: unhashable member values)",
+                  bounds="the whole selector space of the sibling obligations (9 shapes x 6 atom kinds x pooled payloads), native")
+            continue
         m.ob(f"enum_rt_{en}_{pn}", "mi: int", f"return enum_roundtrip({en!r}, {pn!r}, mi)", pre=["0 <= mi < 3"], timeout=tmo,
              family="enum round trip", bounds="every member incl. aliases; strict and lax")
         if en in ("EUnhash", "EList", "EMissing") or pn == "value":
